@@ -123,6 +123,11 @@ def run(index: RepoIndex, rep) -> None:
              'only for turn actions', floor=2)
     rep.rule('C08.R5', 'who may write the pose among registered transition functions', floor=3)
     rep.rule('C08.R6', 'Door.blocks_movement is `not is_open`', floor=3)
+    rep.rule('C08.R8', 'the copy a step works on is a plain deep copy: the grid the agent moves '
+             'in has the extent of the original (no custom pickling / copy protocol; C09.R5)',
+             floor=15)
+    from .c09 import deep_copy_rule
+    deep_copy_rule(index, rep, 'C08.R8')
     rep.rule('C08.R7', 'teleportation displaces the agent only from a Telepod, to another pod of '
              'its colour (C11.R3)', floor=5)
     ev = Evaluator(index)
